@@ -45,12 +45,33 @@ type Recorder struct {
 	Clone    func(interface{}) interface{}
 	mu       sync.Mutex
 	explicit bool
+	// Interpose, if set, makes the next CAS lose a race: the function is first evaluated against the
+	// current value and its result discarded (as a store does when the conditional write fails), then
+	// Interpose runs (the competing writer), then the CAS proper takes place. One-shot.
+	Interpose func()
 }
 
 // SetExplicit marks the writes performed until the next SetExplicit(false) as explicit.
 func (r *Recorder) SetExplicit(v bool) { r.mu.Lock(); r.explicit = v; r.mu.Unlock() }
 
 func (r *Recorder) CAS(ctx context.Context, key string, f func(interface{}) (interface{}, bool, error)) error {
+	r.mu.Lock()
+	ip := r.Interpose
+	r.Interpose = nil
+	r.mu.Unlock()
+	if ip != nil {
+		cur, err := r.Client.Get(ctx, key)
+		if err == nil {
+			var v interface{}
+			if cur != nil {
+				v = r.Clone(cur)
+			}
+			if _, retry, ferr := f(v); ferr != nil && !retry {
+				return ferr
+			}
+		}
+		ip()
+	}
 	var in, out interface{}
 	err := r.Client.CAS(ctx, key, func(v interface{}) (interface{}, bool, error) {
 		in = nil
